@@ -503,4 +503,140 @@ theorem createProp_wf (d : MProp) (hd : WFDescW d) : WFProp (createProp d) := by
     subst hw
     cases g <;> cases s <;> exact ⟨by simp [createProp, normSlot], by simp [createProp, normSlot], rfl⟩
 
+/-! ## a non-configurable property is never re-shaped (holds for ALL descriptors, also inside the regions) -/
+
+def isVal : PV → Bool
+  | .val _ => true
+  | _ => false
+
+/-- what an accepted redefinition may do to a NON-configurable property `prop` (ES5 §8.12.9 steps 7-11):
+    configurable stays false, enumerable and the kind are unchanged, and if it is not writable (every
+    accessor, and every non-writable data property) the value / getter-setter pair is unchanged and it
+    stays non-writable.  (writable → non-writable and a new value for a writable one are allowed.) -/
+def PStable (prop p' : MProp) : Prop :=
+  (tb p'.mode.c, tb p'.mode.e, isVal p'.value,
+    (if tb prop.mode.w then prop.value else p'.value), (if tb prop.mode.w then false else tb p'.mode.w))
+  = (false, tb prop.mode.e, isVal prop.value, prop.value, false)
+
+def StabGoal (prop d : MProp) : Prop :=
+  tb prop.mode.c = false →
+    match defineProp prop d with
+    | some (some p') => PStable prop p'
+    | _ => True
+
+macro "unfold_stab" : tactic => `(tactic|
+  simp only [StabGoal, PStable, defineProp, defineSwitch, MProp.isEmpty, MProp.isGenericDescriptor, MProp.isDataDescriptor,
+    MProp.isAccessorDescriptor, writable_eq, writeSet_eq, enumerable_eq, enumerateSet_eq, configurable_eq, mode222_eq, mergeMode_eq,
+    normSlot])
+
+macro "trits2" : tactic => `(tactic| (intro h1 <;> first | exact Bool.noConfusion h1 | exact rfl | exact True.intro))
+
+set_option maxHeartbeats 2000000 in
+theorem stVN (pv : Val) (pw pe pc dw de dc : Trit) : StabGoal ⟨.val pv, ⟨pw,pe,pc⟩⟩ ⟨.nil, ⟨dw,de,dc⟩⟩ := by
+  unfold_stab
+  cases pw <;> cases pe <;> cases pc <;> cases dw <;> cases de <;> cases dc <;> trits2
+
+set_option maxHeartbeats 4000000 in
+theorem stVV (pv dv : Val) (pw pe pc dw de dc : Trit) : StabGoal ⟨.val pv, ⟨pw,pe,pc⟩⟩ ⟨.val dv, ⟨dw,de,dc⟩⟩ := by
+  unfold_stab
+  by_cases hv : dv = pv
+  · subst hv
+    try simp only [bne_self_eq_false, beq_self_eq_true, eq_self, decide_true]
+    cases pw <;> cases pe <;> cases pc <;> cases dw <;> cases de <;> cases dc <;> trits2
+  · obtain ⟨e1, e2, e3, e4, e5, e6, e7, e8⟩ := neqForms hv
+    try simp only [e1, e2, e3, e4, e5, e6, e7, e8]
+    cases pw <;> cases pe <;> cases pc <;> cases dw <;> cases de <;> cases dc <;> trits2
+
+set_option maxHeartbeats 2000000 in
+theorem stGN (pg ps : Slot) (hg : pg ≠ .nilObj) (hs : ps ≠ .nilObj) (pe pc dw de dc : Trit) :
+    StabGoal ⟨.gs pg ps, ⟨.unset,pe,pc⟩⟩ ⟨.nil, ⟨dw,de,dc⟩⟩ := by
+  unfold_stab
+  cases pg <;> cases ps <;> first | exact absurd rfl hg | exact absurd rfl hs |
+   (cases pe <;> cases pc <;> cases dw <;> cases de <;> cases dc <;> trits2)
+
+set_option maxHeartbeats 2000000 in
+theorem stGV (pg ps : Slot) (dv : Val) (pe pc dw de dc : Trit) :
+    StabGoal ⟨.gs pg ps, ⟨.unset,pe,pc⟩⟩ ⟨.val dv, ⟨dw,de,dc⟩⟩ := by
+  unfold_stab
+  cases pg <;> cases ps <;> cases pe <;> cases pc <;> cases dw <;> cases de <;> cases dc <;> trits2
+
+set_option maxHeartbeats 4000000 in
+theorem stVG (pv : Val) (dg ds : Slot) (hd : dg ≠ .nil ∨ ds ≠ .nil) (pw pe pc de dc : Trit) :
+    StabGoal ⟨.val pv, ⟨pw,pe,pc⟩⟩ ⟨.gs dg ds, ⟨.unset,de,dc⟩⟩ := by
+  unfold_stab
+  cases dg <;> cases ds <;> first | (exfalso; exact hd.elim (fun h => h rfl) (fun h => h rfl)) |
+    (cases pw <;> cases pe <;> cases pc <;> cases de <;> cases dc <;> trits2)
+
+set_option hygiene false in
+macro "fin4s" : tactic => `(tactic|
+  ((try simp only [bne_self_eq_false, beq_self_eq_true, eq_self, decide_true]) <;>
+   cases pe <;> cases pc <;> cases de <;> cases dc <;> trits2))
+
+set_option hygiene false in
+macro "gg_main" : tactic => `(tactic|
+  (unfold_stab
+   try simp only [reduceCtorEq, ↓reduceIte]
+   first
+     | (by_cases h13 : k1 = k3 <;> by_cases h24 : k2 = k4 <;> atom h13 <;> atom h24 <;> fin4s)
+     | (by_cases h13 : k1 = k3 <;> atom h13 <;> fin4s)
+     | (by_cases h24 : k2 = k4 <;> atom h24 <;> fin4s)
+     | fin4s))
+
+set_option maxHeartbeats 32000000 in
+theorem stGG (a b : Option Fn) (x y : Option (Option Fn))
+    (hd : (dslot x ≠ .nil ∨ dslot y ≠ .nil) ∨ (dslot x = pslot a ∧ dslot y = pslot b)) (pe pc de dc : Trit) :
+    StabGoal ⟨.gs (pslot a) (pslot b), ⟨.unset,pe,pc⟩⟩ ⟨.gs (dslot x) (dslot y), ⟨.unset,de,dc⟩⟩ := by
+  rcases a with _ | k1 <;> rcases b with _ | k2 <;> rcases x with _ | _ | k3 <;> rcases y with _ | _ | k4 <;>
+    first
+    | (exfalso
+       rcases hd with (h | h) | ⟨h1, h2⟩ <;>
+         first | exact h rfl | (simp [pslot, dslot] at h1; done) | (simp [pslot, dslot] at h2; done))
+    | (simp only [pslot, dslot]; gg_main)
+
+/-- **a non-configurable property is never re-shaped by [[DefineOwnProperty]]** – for every
+    well-formed stored property and every descriptor otto can build (no region excluded) -/
+theorem defineProp_stable (prop d p' : MProp) (hp : WFProp prop)
+    (hd : WFDesc d ∨ (WFDescW d ∧ d.value = prop.value)) (hc : tb prop.mode.c = false)
+    (h : defineProp prop d = some (some p')) : PStable prop p' := by
+  have key : StabGoal prop d := by
+    obtain ⟨pval, ⟨pw, pe, pc⟩⟩ := prop
+    obtain ⟨dval, ⟨dw, de, dc⟩⟩ := d
+    cases pval with
+    | nil => exact hp.elim
+    | val pv =>
+      cases dval with
+      | nil => exact stVN pv pw pe pc dw de dc
+      | val dv => exact stVV pv dv pw pe pc dw de dc
+      | gs dg ds =>
+        rcases hd with hd | ⟨_, hv⟩
+        · obtain ⟨hw, hne⟩ := hd
+          simp only at hw
+          subst hw
+          exact stVG pv dg ds hne pw pe pc de dc
+        · cases hv
+    | gs pg ps =>
+      obtain ⟨hg, hs, hw⟩ := hp
+      simp only at hw
+      subst hw
+      cases dval with
+      | nil => exact stGN pg ps hg hs pe pc dw de dc
+      | val dv => exact stGV pg ps dv pe pc dw de dc
+      | gs dg ds =>
+        have hw : dw = .unset := by
+          rcases hd with hd | ⟨hd, _⟩
+          · exact hd.1
+          · exact hd
+        subst hw
+        have := stGG (slotFn pg) (slotFn ps) (slotField dg) (slotField ds)
+          (by
+            rw [pslot_slotFn hg, pslot_slotFn hs, dslot_slotField, dslot_slotField]
+            rcases hd with hd | ⟨_, hv⟩
+            · exact Or.inl hd.2
+            · simp only [PV.gs.injEq] at hv; exact Or.inr hv) pe pc de dc
+        rw [pslot_slotFn hg, pslot_slotFn hs, dslot_slotField, dslot_slotField] at this
+        exact this
+  have := key hc
+  rw [h] at this
+  exact this
+
 end OttoVerif.C07.Thm
